@@ -792,3 +792,119 @@ def c19(rng, count, full=False):
             else:
                 out.append(Case(argv, stdin))
     return out
+
+
+# ---------------------------------------------------------------- large inputs (no model: oracles only)
+BUF = 65536
+
+
+def _big_record(rng, delim, nfields, target, eol):
+    """a record of about `target` bytes whose delimiters fall around multiples of the 64 KiB buffer"""
+    fs = []
+    left = target
+    for i in range(nfields):
+        k = left if i == nfields - 1 else rng.choice([1, 7, BUF - 1, BUF, BUF + 1, BUF // 2, 3000])
+        k = max(0, min(k, left))
+        left -= k
+        fs.append(bytes(rng.choice(b"abcxyz ") for _ in range(min(k, 64))) * (k // 64 + 1))
+        fs[-1] = fs[-1][:k]
+    return delim.join(fs)
+
+
+def big_inputs(rng, delim=b"-", eol=b"\n"):
+    out = []
+    # interesting bytes straddling the buffer boundary
+    for off in (BUF - 2, BUF - 1, BUF, BUF + 1):
+        out.append(b"x" * off + delim + b"yy" + delim + b"z" + eol + b"a" + delim + b"b" + eol)
+        out.append(b"k" + delim + b"x" * off + eol + b"p" + delim + b"q" + delim + b"r" + eol)
+        out.append(b"x" * (off - 1) + eol + delim + b"q" + eol)
+        out.append((b"ab" + delim + b"cd" + eol) * (off // 6) + b"tail" + delim + b"end")
+    out.append(_big_record(rng, delim, 5, 3 * BUF + 17, eol) + eol + b"s" + delim + b"t" + eol)
+    out.append((b"f1" + delim + b"f2" + delim + b"f3" + eol) * 30000)
+    return out
+
+
+def c04_big(rng):
+    out = []
+    g = 10 ** 6
+    for data in big_inputs(rng):
+        for b in ("1", "2", "1:2", "2:", "1,3", "x{2}y", "1,3=F"):
+            g += 1
+            argv = ["-M", "1", "-d", "-", "-f", b] + (["-j"] if rng.random() < 0.3 else []) + (["--fallback-oob", "G"] if rng.random() < 0.5 else [])
+            t = {"grp": g, "nomodel": True}
+            out.append(Case(argv, data, entry="main", seg=[], tags=dict(t, role="cli_whole")))
+            out.append(Case(argv, data, entry="main", seg=[rng.choice([1, 2, 3, 100, 4096, BUF - 1, BUF + 1])] * 1 + [rng.choice([5, BUF, 70000])] * 8, tags=dict(t, role="cli_seg")))
+            out.append(Case(argv, data, entry="stream", seg=[], tags=dict(t, role="whole")))
+            out.append(Case(argv, data, entry="stream", seg=[rng.choice([7, 4096, BUF, BUF - 1])] * 64, tags=dict(t, role="lib_seg")))
+    return out
+
+
+def c03_big(rng):
+    out = []
+    g = 10 ** 6
+    for data in big_inputs(rng):
+        for b in ("1", "2", "3", "2:", "1,3=F", "x{2}y"):      # single fields / open range: never straddle
+            g += 1
+            base = ["-d", "-", "-f", b, "--fallback-oob", "G"] + (["-j"] if rng.random() < 0.3 else [])
+            t = {"grp": g, "nomodel": True}
+            out.append(Case(base, data, tags=dict(t, role="plain")))
+            out.append(Case(["-M", "1"] + base, data, tags=dict(t, role="stream_cli")))
+    return out
+
+
+def c02_big(rng):
+    out = []
+    g = 10 ** 6
+    for data in big_inputs(rng):
+        for b in ("1", "2,1", "-1", "1:2,3", "2:"):
+            g += 1
+            argv = ["-d", "-", "-f", b, "--fallback-oob", "G"] + (["-s"] if rng.random() < 0.3 else [])
+            t = {"grp": g, "nomodel": True}
+            out.append(Case(argv, data, entry="general", tags=dict(t, role="general")))
+            out.append(Case(argv, data, entry="fast", tags=dict(t, role="fast")))
+            out.append(Case(argv, data, entry="main", tags=dict(t, role="cli")))
+    return out
+
+
+def c10_big(rng):
+    out = []
+    g = 10 ** 6
+    ins = big_inputs(rng)
+    for i in range(0, len(ins) - 1):
+        A, B = ins[i], ins[i + 1]
+        if not A.endswith(b"\n"):
+            A += b"\n"
+        for argv in (["-d", "-", "-f", "2,1", "--fallback-oob", "G"], ["-d", "-", "-f", "1:2", "-p", "--fallback-oob", "G"],
+                     ["-M", "1", "-d", "-", "-f", "2", "--fallback-oob", "G"], ["-d", "-", "-f", "3"]):
+            g += 1
+            t = {"grp": g, "nomodel": True}
+            out.append(Case(argv, A, tags=dict(t, role="A")))
+            out.append(Case(argv, B, tags=dict(t, role="B")))
+            out.append(Case(argv, A + B, tags=dict(t, role="AB")))
+    return out
+
+
+def c14_big(rng):
+    """outputs larger than the 64 KiB BufWriter, write faults around the buffer boundary, a record
+    that fails after more than a buffer of good output"""
+    out = []
+    g = 10 ** 6
+    many = (b"alpha-beta-gamma\n") * 9000          # ~150 KB in, ~45-100 KB out
+    for argv in (["-d", "-", "-f", "2"], ["-d", "-", "-f", "1:2", "-g"], ["-M", "1", "-d", "-", "-f", "2"], ["-c", "1:5"],
+                 ["-l", "2:"], ["-l", "-8000:"], ["-b", "1:"], ["--json", "-d", "-", "-f", "1,2"]):
+        g += 1
+        t = {"grp": g, "nomodel": True}
+        out.append(Case(argv, many, tags=dict(t, role="clean")))
+        for k in (0, 1, BUF - 1, BUF, BUF + 1, 2 * BUF, 10 ** 9):
+            out.append(Case(argv, many, extra={"wfail": str(k)}, tags=dict(t, role="w%d" % k, fault=("w", k))))
+        for k in (BUF - 1, BUF, BUF + 7, len(many) - 1):
+            out.append(Case(argv, many, extra={"rfail": str(k)}, tags=dict(t, role="r%d" % k, fault=("r", k))))
+    # a failing record after more than a buffer of good output
+    good = (b"a-b-c\n") * 20000
+    bad = good + b"only-two\n" + b"x-y-z\n"
+    for argv in (["-d", "-", "-f", "3"], ["-d", "-", "-f", "3", "-g"], ["-M", "1", "-d", "-", "-f", "3"]):
+        g += 1
+        t = {"grp": g, "nomodel": True}
+        out.append(Case(argv, good, tags=dict(t, role="A")))
+        out.append(Case(argv, bad, tags=dict(t, role="AB_fail")))
+    return out
